@@ -165,8 +165,8 @@ func (e *verifEngine) lockDesc(l *Lock) string {
 		return "freed"
 	}
 	et := l.expriedTime
-	return fmt.Sprintf("%d:%d:%d:%d:%d:%d:%d:%d:%d", vn16(l.command.LockId), l.locked, l.ackCount, l.refCount, b2i(l.timeouted), b2i(l.expried),
-		et, l.timeoutTime, b2i(l.isAof))
+	return fmt.Sprintf("%d:%d:%d:%d:%d:%d:%d:%d:%d:%d:%d:%d:%d", vn16(l.command.LockId), l.locked, l.ackCount, l.refCount, b2i(l.timeouted), b2i(l.expried),
+		et, l.timeoutTime, b2i(l.isAof), l.command.Count, l.command.Rcount, l.command.TimeoutFlag, vn16(l.command.RequestId))
 }
 
 func countFreed(q *LockQueue) int {
@@ -223,12 +223,13 @@ func (e *verifEngine) snapshot() {
 			}
 		}
 		sb.WriteString("]")
-		if m.locks != nil && m.locks.fastQueue != nil {
+		// a recycled manager object keeps an emptied fastQueue of the initial capacity: same as nil
+		if m.locks != nil && m.locks.fastQueue != nil && !(len(m.locks.fastQueue) == 0 && m.locks.fastIndex == 0 && cap(m.locks.fastQueue) == 6) {
 			fmt.Fprintf(&sb, " hq=%d/%d", m.locks.fastIndex, cap(m.locks.fastQueue))
 		} else {
 			sb.WriteString(" hq=-")
 		}
-		if m.waitLocks != nil && m.waitLocks.fastQueue != nil && m.waitLocks.fastIndex >= 0 {
+		if m.waitLocks != nil && m.waitLocks.fastQueue != nil && m.waitLocks.fastIndex >= 0 && !(len(m.waitLocks.fastQueue) == 0 && m.waitLocks.fastIndex == 0 && cap(m.waitLocks.fastQueue) == 8) {
 			fmt.Fprintf(&sb, " wq=%d/%d", m.waitLocks.fastIndex, cap(m.waitLocks.fastQueue))
 		} else {
 			sb.WriteString(" wq=-")
